@@ -7,6 +7,10 @@ import os
 HERE = os.path.dirname(os.path.dirname(os.path.abspath(__file__)))
 
 CLAIMED = {
+ "C01": dict(engine="T+M", category="model_checking", design="DESIGN.md 3/C01",
+   technique="kind-check-protects-cast tables extracted from MIR by symbolic execution; z3 decides per consumer site; every model replayed on the real oal-cli",
+   text="Bounded. From the MIR of oal-compiler, symbolic execution extracts on every run: the TagWrap::is_* x Tag table, the cast_* x Expr-variant panic table, the eval_any / type_check / tag() dispatch, the 22 cast sites of eval_* (which child feeds which cast), the tag sets the Ok paths of check_* admit for that child, and the constant-tag equations of constrain(). For each site z3 decides whether one of 23 catalogued producers (tag and value variant read from tag()/eval_*) passes guard and equation while the cast panics on its value; a second query family puts the child behind the parameter of a function imported from another module (guards accept unresolved variables). Every model is rendered (directly and through a let-bound variable / a two-module program) and run through the real oal-cli: only a process that dies after acceptance counts; rejected renderings are counted as spurious. Three emitter lemmas: schema() never hands a Ref to value_schema, maybe_inline returns only inlinable kinds, Expr::VariadicOp is never built for the Range operator.",
+   note="Trusted: MIR text, mirsym, z3; hand-written renderings of producers and sites (a wrong rendering loses coverage, never alarms; evidence lists sites without template/witness). Outside: programs deeper than the one-site skeleton, annotations, evaluation depth, resolver guarantees. Three genuine defects found this way are listed in known_findings.json by (mode, site); any other crash is a VIOLATION."),
  "C03": dict(engine="K+M", category="model_checking", design="DESIGN.md 3/C03",
    technique="Kani/CBMC on HttpStatus::try_from + MIR symbolic execution/z3 on the emitter's anchored mechanisms; validator over real oal-cli output as replay",
    text="Partial: one lemma family per anchored mechanism. Status domain: for every u64, HttpStatus::try_from is Ok(Code(v)) iff 100<=v<=599 (Kani); parse_http_status maps [1-5]XX to the matching range (Kani, regex compared with the source attribute); Builder::http_status_code maps Code(c) to StatusCode::Code(c) and the five ranges to exactly 1..5; the evaluator turns a number into a status only through try_from and its default-status constant is in range. $ref closure: reference_schema emits a Reference exactly on the paths where maybe_inline(name) is None, with target '#/components/schemas/'+untagged(name); one iteration of all_components registers key untagged(name) exactly when maybe_inline(name) is None (same predicate, same key). Path key vs. parameters: all_paths derives key and PathItem from the same relation; relation_path_item.parameters = uri_params(rel.uri) untouched by the method loop; per segment, pattern_with contributes '/'+'{name}' for a Variable and uri_params exactly one required Parameter::Path named after the same property, a Literal contributes its text and no parameter.",
@@ -51,7 +55,6 @@ NA = {
 }
 
 PENDING = {
- "C01": "check under construction (engine T+M); not yet registered",
 }
 
 HOOK_COMMITS = []
